@@ -7,7 +7,7 @@ open OPM OPM.Wire OPM.CmdMgr
 
 /-!
 ops (tab separated), see `harness/cmdmgr.py`:
-  `cfg <durs> <fails> <overlaps> <variant>`  variant = two digits: fixCancel fixInstr
+  `cfg <durs> <fails> <overlaps> <variant>`  variant = three digits: fixCancel fixInstr fixStop (two digits: fixStop off)
   `req <k> [bad]` · `user start|stop|restart` · `tick` · `cancel <id>` · `force <id>` · `sim <j>` · `pause 0|1`
 answer: `<reply> | ev=… ex=… qu=… in=… tr=… st=… sys=… run=… sim=… rs=… stop=…`
 -/
@@ -107,7 +107,11 @@ def step (d : DState) (line : String) : DState × String :=
     match parseSpecs durs fails, parseOverlaps ovl, variant.toList with
     | some cs, some os, [a, b] =>
       if (a = '0' || a = '1') && (b = '0' || b = '1') then
-        ({ s := { cfg := { cmds := cs, overlaps := os, fixCancel := a = '1', fixInstr := b = '1' } } }, "ok")
+        ({ s := { cfg := { cmds := cs, overlaps := os, fixCancel := a = '1', fixInstr := b = '1', fixStop := false } } }, "ok")
+      else (d, "bad-op")
+    | some cs, some os, [a, b, c] =>
+      if (a = '0' || a = '1') && (b = '0' || b = '1') && (c = '0' || c = '1') then
+        ({ s := { cfg := { cmds := cs, overlaps := os, fixCancel := a = '1', fixInstr := b = '1', fixStop := c = '1' } } }, "ok")
       else (d, "bad-op")
     | _, _, _ => (d, "bad-op")
   | ["req", k] => match k.toNat? with | some k => apply d (.req k) | none => (d, "bad-op")
